@@ -46,7 +46,8 @@ REQUIRED = ["ops_executed", "rechecks", "handle_reads", "node_writes", "detach_n
             "slices_checked", "index_errors_checked", "branch_segments_checked",
             "tree_segments_checked", "adjacency_checked", "pid_writes",
             "worlds_with_other_column_dtypes", "relatives_checked", "mixed_owner_containers",
-            "views_built_by_caller", "views_built_from_a_range"]
+            "views_built_by_caller", "views_built_from_a_range", "pid_writes_on_tree_copies",
+            "long_views_over_unordered_rows"]
 FLOOR = {"quick": 250, "thorough": 5000}
 SHARDS = {"quick": 8, "thorough": 16}
 
@@ -209,6 +210,8 @@ def _run_history(ctx, case):
         tuple, array or (for a run of consecutive ids) a range."""
         run_ = len(L) >= 2 and all(L[j_ + 1] == L[j_] + 1 for j_ in range(len(L) - 1))
         forms = ["list", "tuple", "array", "array64"] + (["range", "range", "range"] if run_ else [])
+        if kind == "path" and not run_ and len(L) >= 32:
+            ctx.count("long_views_over_unordered_rows")
         form = forms[int(rng.integers(0, len(forms)))]
         idx = {"list": lambda: list(L), "tuple": lambda: tuple(L),
                "array": lambda: np.array(L, dtype=np.int32),
@@ -223,6 +226,22 @@ def _run_history(ctx, case):
            "path", "branch", "comp", "tree_segments", "adjacency", "detach_node", "detach_path",
            "detach_branch", "detach_comp", "copy", "write_free", "write_free", "reparent",
            "mixed_segments"]
+    if case.get("long_view") and n >= 40:
+        # a long view (32 nodes and more) over rows that are not stored in path order
+        for _ in range(3):
+            a_ = int(rng.integers(0, n - 35))
+            L = list(range(a_, int(rng.integers(a_ + 33, n + 1))))
+            mid = L[1:-1]
+            rng.shuffle(mid)
+            L = (L[0], *mid, L[-1])
+            obj = caller_view("path", L)
+            W.view_check("path", obj, L)
+            W.view_deep("path", obj, L, rng)
+            add_handle("path", obj, L)
+            d = obj.detach()
+            cols_ = {k: np.array(v[list(L)], copy=True) for k, v in W.cols.items()}
+            cols_["id"], cols_["pid"] = np.arange(len(L)), np.arange(-1, len(L) - 1)
+            W.view_check("path", d, range(len(L)), cols=cols_, owner_ids=True)
     for step in range(case["length"]):
         op = ops[int(rng.integers(0, len(ops)))]
         ctx.count("ops_executed")
@@ -334,6 +353,15 @@ def _run_history(ctx, case):
                 if op == "path" and rng.random() < 0.4 and n >= 3:  # any run of consecutive ids
                     a_ = int(rng.integers(0, n - 1))
                     L = tuple(range(a_, int(rng.integers(a_ + 2, n + 1))))
+                    if n >= 36 and rng.random() < 0.7:  # a long one (32 nodes and more)
+                        a_ = int(rng.integers(0, n - 33))
+                        L = tuple(range(a_, int(rng.integers(a_ + 32, n + 1))))
+                    if len(L) >= 8 and rng.random() < 0.6:
+                        # ... visited in another order (first and last kept): a neurite whose
+                        # rows are stored out of order; the view reports the nodes in *its* order
+                        mid = list(L[1:-1])
+                        rng.shuffle(mid)
+                        L = (L[0], *mid, L[-1])
                 obj = caller_view(op, L)
             W.view_check(op, obj, L)
             W.view_deep(op, obj, L, rng)
@@ -462,7 +490,33 @@ def _run_history(ctx, case):
             k = str(rng.choice(FCOLS))
             v = float(np.float32(rng.normal(0, 50)))
             j = int(rng.integers(0, len(L)))
-            if kind == "treecopy":
+            if kind == "treecopy" and len(L) >= 3 and rng.random() < 0.4:
+                # a topology write through a handle of the *copy*: the copy's own (parent, child)
+                # pairs -- segments and adjacency matrix -- follow, the original is untouched
+                cp = np.asarray(cols["pid"]).astype(np.int64)
+                chc = topo.children_lists(cp)
+                kk = int(rng.integers(1, len(L)))
+                subc = set(topo.descendants(chc, kk))
+                cand = [q for q in range(len(L)) if q not in subc and q != int(cp[kk])]
+                if cand:
+                    jj = int(cand[int(rng.integers(0, len(cand)))])
+                    obj.node(kk).pid = jj
+                    cols["pid"][kk] = jj
+                    ctx.count("pid_writes_on_tree_copies")
+                    pairs = sorted((int(cols["pid"][i]), i) for i in range(len(L))
+                                   if cols["pid"][i] >= 0)
+                    got = sorted((int(s_.origin_id()[0]), int(s_.origin_id()[1]))
+                                 for s_ in obj.get_segments())
+                    _need(got == pairs, "tree-segments", "segments of a tree copy do not follow a "
+                                                         "parent written through its own handle")
+                    A_ = obj.get_adjacency_matrix().toarray()
+                    want_ = np.zeros((len(L), len(L)), dtype=np.int32)
+                    for i in range(len(L)):
+                        if cols["pid"][i] >= 0:
+                            want_[cols["pid"][i], i] = 1
+                    _need(_eq(A_, want_), "adjacency", "adjacency matrix of a tree copy does not "
+                                                       "follow a parent written through its handle")
+            elif kind == "treecopy":
                 obj.node(j).x = v
                 cols["x"][j] = v
             elif kind == "node":
@@ -525,9 +579,13 @@ def run(ctx):
     for k in range(n_hist):
         rc = G.random_recipe(rng, max_n=G.size_ladder(ctx, k, 8, 30, 120),
                              extras=int(rng.integers(0, 3)))
+        if k % 25 == 3:  # trees large enough for long views
+            rc = G.random_recipe(rng, max_n=120, shapes=["chain", "bamboo", "neuron", "recursive"],
+                                 extras=0)
+            rc["n"] = max(rc["n"], 60)
         case = {"tree": rc, "hseed": int(rng.integers(0, 2**31 - 1)),
                 "length": int(rng.integers(20, 60 if ctx.quick else 200)),
-                "alt_dtypes": bool(k % 4 == 3)}
+                "alt_dtypes": bool(k % 4 == 3), "long_view": bool(k % 25 == 3)}
         wrote, copied = execute(ctx, case) or (0, 0)
         ctx.case(case, nontrivial=wrote >= 1 and copied >= 1,
                  klass=f"{rc['shape']}/{rc['numbering']}")
